@@ -37,6 +37,26 @@ def sweep_join(first, second, comm, A1, A2, TARGET):
     shifted = overlap.merge(status_df.shift(-1).dropna(), left_index=True, right_index=True)
     return (shifted["time_y"] - shifted["time_x"]).sum() / (comm["end"] - comm["ts"]).sum()
 
+def sweep_join_labels(first, second, comm, A1, A2, TARGET):
+    status_df = (
+        pd.concat([first.rename(columns={"ts": A1, "end": -A1}).melt(var_name="status", value_name="time"),
+                   second.rename(columns={"ts": A2, "end": -A2}).melt(var_name="status", value_name="time")])
+        .sort_values(by="time").reset_index(drop=True))
+    status_df["running"] = status_df["status"].cumsum()
+    overlap = status_df[status_df["running"].eq(TARGET)]
+    shifted = overlap.merge(status_df.shift(-1).dropna(), left_index=True, right_index=True)
+    return (shifted["time_y"] - shifted["time_x"]).sum() / (comm["end"] - comm["ts"]).sum()
+
+def sweep_col_labels(first, second, comm, A1, A2, TARGET):
+    status_df = (
+        pd.concat([first.rename(columns={"ts": A1, "end": -A1}).melt(var_name="status", value_name="time"),
+                   second.rename(columns={"ts": A2, "end": -A2}).melt(var_name="status", value_name="time")])
+        .sort_values(by="time").reset_index(drop=True))
+    status_df["running"] = status_df["status"].cumsum()
+    status_df["next_time"] = status_df["time"].shift(-1)
+    overlap = status_df[status_df["running"].eq(TARGET)]
+    return (overlap["next_time"] - overlap["time"]).sum() / (comm["end"] - comm["ts"]).sum()
+
 def sweep_col(first, second, comm, A1, A2, TARGET):
     status_df = (
         pd.concat([first.melt(var_name="status", value_name="time").replace({"ts": A1, "end": -A1}),
@@ -49,9 +69,20 @@ def sweep_col(first, second, comm, A1, A2, TARGET):
 '''
 
 
-def _marker_maps(term):
-    """[(melt base, {'ts': v, 'end': w})] for every replace applied to a melted 'status' column"""
+def _marker_maps(term, operands=()):
+    """[(melt base, {'ts': v, 'end': w})] for every replace applied to a melted 'status' column; also the same markers written as column LABELS
+    (operand.rename(columns={'ts': v, 'end': w}).melt(...): the melted variable column holds the labels)"""
     out = []
+    for r in T.find(term, lambda s: s[0] == "meltvar" and len(s) == 2 and s[1][3] is not None and any(isinstance(lab, int) for lab, _ in s[1][3])):
+        base = r[1]
+        for M in operands:
+            if base[1] == M.ctx():
+                d = {}
+                for lab, t in base[3]:
+                    nm = [c for c in ("ts", "end") if t == M.col(c)]
+                    d[nm[0] if nm else f"?{lab}"] = lab
+                if (base, d) not in out:
+                    out.append((base, d))
     for r in T.find(term, lambda s: s[0] == "replace" and len(s) == 3 and isinstance(s[2], tuple) and s[2] and s[2][0] == "meltvar"):
         mp = r[1]
         if mp[0] != "dict":
@@ -153,7 +184,7 @@ def _one_path(db, chk, where, TR, run_, calls, ptag):
     except T.Unknown:
         chk.ob("C07.R1-sweep", "device-row predicate reads only the stream column", False, where, found=T.show(dev), accepted="predicate over stream alone")
     Mcomm, Mcomp = by_type["COMMUNICATION"]["frame"], by_type["COMPUTATION"]["frame"]
-    maps = _marker_maps(ratio)
+    maps = _marker_maps(ratio, (Mcomm, Mcomp))
     vals = {}
     for base, d in maps:
         which = "COMMUNICATION" if base[1] == Mcomm.ctx() else "COMPUTATION" if base[1] == Mcomp.ctx() else None
@@ -169,7 +200,7 @@ def _one_path(db, chk, where, TR, run_, calls, ptag):
     chk.ob("C07.R1-sweep", "a+b differs from 0, a and b (overlap state is distinguishable)", (a + b) not in (0, a, b), where, found={"a": a, "b": b}, accepted="a, b, a+b non-zero")
     # reference sweeps (both concat orders, join form and column form)
     accepted = []
-    for fname in ("sweep_join", "sweep_col"):
+    for fname in ("sweep_join", "sweep_col", "sweep_join_labels", "sweep_col_labels"):
         for first, second, a1, a2 in ((Mcomm, Mcomp, a, b), (Mcomp, Mcomm, b, a)):
             rs = run_spec(db, SWEEP_SPEC, fname, lambda I, first=first, second=second, a1=a1, a2=a2: {
                 "first": merged_frame_of(*first.base[1:]), "second": merged_frame_of(*second.base[1:]), "comm": merged_frame_of(*Mcomm.base[1:]),
